@@ -13,6 +13,8 @@ TRUSTED_BASE = ["harness/cache_corr.py: in-memory stores with one strictly incre
 def run(ctx):
     import translate_stale
     translate_stale.check(ctx)      # caching.py's stale decision, translated to Gallina and linked to the model by a theorem
+    import translate_mtime
+    translate_mtime.check(ctx)      # what the bundled file stores / PathSource report as modified time: compiled from the source, linked to Codec.store_mtime
     camp = cache_corr.Campaign(ctx)
     cache_corr.history_campaign(ctx, camp, ctx.n(60, 1200), ctx.n(6, 8))
     import cache_files
